@@ -26,6 +26,7 @@ type Directives struct {
 	Delay  int    // d<ms>
 	N      int    // n<k>: number of extra records (default 2)
 	Big    int    // big<N>: pad the answer to about N bytes
+	Exact  int    // exact<N>: pad the answer so that its compressed wire form has exactly N octets (N >= 600)
 	TTL    uint32 // ttl<N> (default 300)
 	MixTTL bool   // ttlm: record i gets TTL+i
 	Opt    bool   // opt: reply carries an OPT with options
@@ -69,6 +70,8 @@ func ParseDirectives(firstLabel string) Directives {
 			d.Kind, d.RCode = "rc", n&0xF
 		} else if n, ok := num("http"); ok {
 			d.Kind, d.HTTP = "http", n
+		} else if n, ok := num("exact"); ok {
+			d.Exact = n
 		} else if n, ok := num("big"); ok {
 			d.Big = n
 		} else if n, ok := num("pad"); ok {
@@ -292,6 +295,43 @@ func BuildReply(name string, qtype, qclass uint16, tag string, serial uint32, d 
 			txt := strings.Repeat(hex.EncodeToString(s), 3)[:180]
 			m.Answer = append(m.Answer, &dns.TXT{Hdr: dns.RR_Header{Name: name, Rrtype: dns.TypeTXT, Class: class, Ttl: ttlOf(i)}, Txt: []string{txt}})
 			i++
+		}
+	}
+	if d.Exact >= 600 {
+		wireLen := func() int {
+			c := m.Compress
+			m.Compress = true
+			b, err := m.Pack()
+			m.Compress = c
+			if err != nil {
+				return 1 << 30
+			}
+			return len(b)
+		}
+		i := 3000
+		filler := func(n int) *dns.TXT {
+			s := sub(key, serial, i)
+			i++
+			txt := strings.Repeat(hex.EncodeToString(s), 5)[:n]
+			return &dns.TXT{Hdr: dns.RR_Header{Name: name, Rrtype: dns.TypeTXT, Class: class, Ttl: ttlOf(i)}, Txt: []string{txt}}
+		}
+		for wireLen() < d.Exact-700 {
+			for k := 0; k < 16 && wireLen() < d.Exact-4000; k++ {
+				m.Answer = append(m.Answer, filler(250))
+			}
+			m.Answer = append(m.Answer, filler(250))
+		}
+		for tries := 0; tries < 8; tries++ {
+			rem := d.Exact - wireLen()
+			if rem == 0 {
+				break
+			}
+			if rem < 14 { // too little room for one more record: shorten the last filler
+				last := m.Answer[len(m.Answer)-1].(*dns.TXT)
+				last.Txt[0] = last.Txt[0][:len(last.Txt[0])-(14-rem)-3]
+				continue
+			}
+			m.Answer = append(m.Answer, filler(min(rem-13, 250)))
 		}
 	}
 	return m
